@@ -270,7 +270,229 @@ func genPlan(tier string, r *core.Rand) Plan {
 			p.Link.AB.LatUs[j] &^= 1
 		}
 	}
+	if t.NoCaps {
+		// A TNC that never answers 'g' uses up RegisterPort's whole 10 s budget;
+		// the 'X' request is then written with the context already expired. With
+		// write pacing the answer can arrive while that write is still blocked,
+		// and the library's select between the expired context and the answer is
+		// a coin flip of the Go runtime (either result is fine, but the run does
+		// not repeat). Without pacing the context always wins.
+		p.Link.AB.WriteDelayUs = nil
+	}
+	// The multi-session arm is drawn last: the plans of the runs that stay
+	// single-session are exactly what they were before the arm existed.
+	if r.Chance(0.38) {
+		genMore(thorough, r, &p)
+	}
 	return p
+}
+
+// genMore turns p into a multi-session plan: 1-3 further sessions on the same
+// Port after the first one, most of them with a station an earlier session
+// talked to (re-dial after local close, after remote disconnect, after a
+// refused or unanswered dial; the station calling in again), some with another
+// station, some overlapping the session before them.
+func genMore(thorough bool, r *core.Rand, p *Plan) {
+	n := 1 + r.Pick(5, 3, 2)
+	// the first session must leave the port open
+	if p.Script.End == "tnc-close" {
+		p.Script.End = []string{"remote-disconnect", "local-close"}[r.Intn(2)]
+	}
+	// now and then the first attempt fails: station busy, or no answer until the dial deadline
+	if p.Mode == "dial" && r.Chance(0.2) {
+		if r.Bool() {
+			p.TNC.Connect = "refuse"
+		} else {
+			p.TNC.Connect = "silent"
+			p.DialTimeoutMs = r.Range(200, 8000)
+		}
+	}
+	silent := p.TNC.Connect == "silent"
+	remotes := []string{p.Remote}
+	modes := []string{p.Mode}
+	totalFrames := len(p.Script.Frames)
+	for i := 0; i < n; i++ {
+		var m Session
+		prev := remotes[len(remotes)-1]
+		switch r.Pick(11, 2, 7) {
+		case 0:
+			m.Remote = prev
+		case 1:
+			m.Remote = remotes[r.Intn(len(remotes))]
+		default:
+			m.Remote = remoteCalls[r.Intn(len(remoteCalls))]
+		}
+		m.Mode = "dial"
+		if r.Chance(0.35) {
+			m.Mode = "accept"
+		}
+		if m.Mode == "dial" && r.Chance(0.3) {
+			for j, k := 0, r.Range(1, 3); j < k; j++ {
+				m.Digis = append(m.Digis, digiCalls[r.Intn(len(digiCalls))])
+			}
+		}
+		m.UseURL = r.Chance(0.3)
+		m.Start = "after"
+		if m.Remote != prev && r.Chance(0.3) {
+			m.Start = "overlap"
+		}
+		m.GapMs = r.Intn([]int{10, 300, 5000}[r.Pick(3, 3, 1)] + 1)
+		last := i == n-1
+		m.Connect = "accept"
+		if m.Mode == "dial" {
+			w := []int{16, 2, 2}
+			if last {
+				w = []int{18, 1, 1}
+			}
+			m.Connect = []string{"accept", "refuse", "silent"}[r.Pick(w...)]
+		}
+		m.ConnectLatMs = r.Intn([]int{5, 500, 8000}[r.Pick(3, 3, 1)] + 1)
+		if m.Mode == "dial" && (m.Connect == "silent" || r.Chance(0.12)) {
+			m.DialTimeoutMs = r.Range(1, 12000)
+		}
+		silent = silent || m.Connect == "silent"
+
+		// TNC script
+		sc := &m.Script
+		sc.StartDelayMs = r.Intn(200)
+		nFrames := 0
+		switch p.Regime {
+		case "paced":
+			nFrames = r.Range(1, 14)
+		case "burst":
+			nFrames = r.Range(14, 32)
+		default:
+			nFrames = r.Range(3, 16)
+		}
+		if thorough && r.Chance(0.2) {
+			nFrames *= 2
+		}
+		if r.Chance(0.05) {
+			nFrames = 0
+		}
+		big := r.Chance(0.15)
+		for j := 0; j < nFrames; j++ {
+			switch {
+			case big && r.Chance(0.3):
+				sc.Frames = append(sc.Frames, r.Range(257, 700))
+			case r.Chance(0.2):
+				sc.Frames = append(sc.Frames, r.Range(1, 4))
+			case r.Chance(0.15):
+				sc.Frames = append(sc.Frames, 256)
+			default:
+				sc.Frames = append(sc.Frames, r.Range(1, 256))
+			}
+		}
+		totalFrames += nFrames
+		gapScale := []int{0, 5, 100, 1000}[r.Pick(2, 3, 3, 1)]
+		sc.GapMs = core.Tape(r, r.Range(1, 4), func() int { return r.Intn(gapScale + 1) })
+		switch p.Regime {
+		case "paced":
+			sc.Ahead = r.Range(0, 5)
+		case "coalesced":
+			sc.Ahead = r.Range(0, 2)
+			sc.Group = core.Tape(r, r.Range(1, 4), func() int { return r.Range(1, 5) })
+			sc.Group[0] = r.Range(2, 5)
+		case "burst":
+			sc.Group = core.Tape(r, r.Range(1, 3), func() int { return r.Range(13, 40) })
+		}
+		if r.Chance(0.35) && nFrames > 0 {
+			kinds := []string{"other-port", "other-remote", "other-both", "other-local", "mon-U", "mon-I", "mon-T", "unsol-R", "unsol-g", "heard-H", "raw-K", "unknown-kind", "other-d", "other-C", "inbound-unaccepted"}
+			for j, k := 0, r.Range(1, 4); j < k; j++ {
+				sc.Foreign = append(sc.Foreign, Foreign{Before: r.Intn(nFrames + 1), Kind: kinds[r.Intn(len(kinds))], Size: r.Range(1, 256)})
+			}
+		}
+		if last {
+			sc.End = []string{"remote-disconnect", "local-close", "tnc-close"}[r.Pick(5, 4, 1)]
+		} else {
+			sc.End = []string{"remote-disconnect", "local-close"}[r.Pick(5, 5)]
+		}
+		sc.EndDelayMs = r.Intn(400)
+		sc.InboundDelayMs = r.Range(1, 300)
+		sc.AcceptLate = m.Mode == "accept" && r.Chance(0.05)
+
+		// client
+		c := &m.Client
+		c.StepDelayMs = core.Tape(r, r.Range(1, 4), func() int { return r.Intn(100) })
+		maxFrame := maxOf(sc.Frames, 1)
+		smallBuf := r.Chance(0.35)
+		c.ReadBuf = core.Tape(r, r.Range(1, 5), func() int {
+			if smallBuf {
+				switch r.Pick(2, 3, 2) {
+				case 0:
+					return r.Range(1, 8)
+				case 1:
+					return r.Range(1, 300)
+				}
+				return r.Range(256, 4096)
+			}
+			return []int{maxFrame, maxFrame + r.Intn(64), 1024, 4096}[r.Intn(4)]
+		})
+		for j, v := range c.ReadBuf {
+			if !smallBuf && v < maxFrame {
+				c.ReadBuf[j] = maxFrame
+			}
+		}
+		thinkScale := []int{0, 20, 300}[r.Pick(3, 3, 1)]
+		if p.Regime == "burst" {
+			thinkScale = []int{200, 1000, 3000}[r.Intn(3)]
+		}
+		c.ReadThinkMs = core.Tape(r, r.Range(1, 5), func() int { return r.Intn(thinkScale + 1) })
+		if r.Chance(0.1) {
+			c.ReadDeadlineMs = r.Range(50, 5000)
+		}
+		c.WriterStartMs = r.Intn(300)
+		nW := r.Range(0, 5)
+		if r.Chance(0.3) {
+			nW = 1 // a single Write: its very first 'Y' answer is what it depends on
+		}
+		for j := 0; j < nW; j++ {
+			sz := r.Range(1, 256)
+			switch r.Pick(5, 3, 1) {
+			case 1:
+				sz = r.Range(257, 2048)
+			case 2:
+				sz = r.Range(1, 3)
+			}
+			c.Writes = append(c.Writes, WStep{Op: "write", Size: sz, DelayMs: r.Intn(200)})
+			switch r.Pick(12, 4, 1, 1) {
+			case 1:
+				c.Writes = append(c.Writes, WStep{Op: "flush", DelayMs: r.Intn(50)})
+			case 2:
+				c.Writes = append(c.Writes, WStep{Op: "sendui", Size: r.Range(1, 200), DelayMs: r.Intn(50)})
+			case 3:
+				c.Writes = append(c.Writes, WStep{Op: "ping", DelayMs: r.Intn(50)})
+			}
+		}
+		if nW > 0 && r.Chance(0.4) {
+			c.Writes = append(c.Writes, WStep{Op: "flush", DelayMs: r.Intn(50)})
+		}
+		if r.Chance(0.06) {
+			c.CloserAtMs = r.Range(1, 5000)
+		}
+		p.More = append(p.More, m)
+		remotes = append(remotes, m.Remote)
+		modes = append(modes, m.Mode)
+	}
+	if silent {
+		// an unanswered dial ends when the TNC confirms the library's disconnect
+		// request; a TNC that does not would block the dial, and with it the
+		// port, for good
+		p.TNC.NoDiscAck = false
+	}
+	// the fault of the plan, if any, goes into the script of any of the sessions
+	if p.Fault != nil {
+		p.Fault.Session = r.Intn(n + 1)
+		frames := len(p.Script.Frames)
+		if p.Fault.Session > 0 {
+			frames = len(p.More[p.Fault.Session-1].Script.Frames)
+		}
+		p.Fault.Before = r.Intn(frames + 1)
+	}
+	if p.Link.Cut != nil {
+		p.Link.Cut.Off = r.Range(0, 36*8*(n+1)+totalFrames*150)
+	}
+	_ = modes
 }
 
 var _ = agwtnc.HeaderLen
